@@ -11,10 +11,14 @@ import (
 	"bytes"
 	"encoding/json"
 	"fmt"
+	"io"
+	"net/http"
 	"os"
 	"sort"
 	"strconv"
 	"strings"
+	"sync"
+	"time"
 
 	"verif/harness/internal/hx"
 
@@ -22,6 +26,7 @@ import (
 	"github.com/ysugimoto/falco/v2/lexer"
 	"github.com/ysugimoto/falco/v2/parser"
 	"github.com/ysugimoto/falco/v2/snippet"
+	"github.com/ysugimoto/falco/v2/snippet/remote"
 	"github.com/ysugimoto/falco/v2/snippet/terraform"
 )
 
@@ -50,16 +55,23 @@ type entry struct {
 	Subnet  int  `json:"subnet"`
 	Comment cps  `json:"comment"`
 }
+type service struct {
+	ID    string     `json:"id"`
+	Dicts []resource `json:"dicts"`
+	Acls  []resource `json:"acls"`
+}
 type resource struct {
-	Kind    string  `json:"kind"`
-	Name    cps     `json:"name"`
-	Items   []item  `json:"items"`
-	Entries []entry `json:"entries"`
-	Address cps     `json:"address"`
-	Type    int     `json:"type"`
-	Retries int     `json:"retries"`
-	Quorum  int     `json:"quorum"`
-	Members []cps   `json:"members"`
+	Services []service `json:"services"`
+	Late     int       `json:"late"`
+	Kind     string    `json:"kind"`
+	Name     cps       `json:"name"`
+	Items    []item    `json:"items"`
+	Entries  []entry   `json:"entries"`
+	Address  cps       `json:"address"`
+	Type     int       `json:"type"`
+	Retries  int       `json:"retries"`
+	Quorum   int       `json:"quorum"`
+	Members  []cps     `json:"members"`
 }
 type piece struct {
 	Lit *string `json:"lit"`
@@ -87,9 +99,10 @@ type readBack struct {
 type behaviour struct {
 	Res      resource        `json:"-"`
 	ResRaw   json.RawMessage `json:"res"`
-	Pieces   []piece  `json:"pieces"`
-	Read     readBack `json:"read"`
-	Faithful bool     `json:"faithful"`
+	Expect   json.RawMessage `json:"expect"` // canary: compare the declarations with this resource instead of res
+	Pieces   []piece         `json:"pieces"`
+	Read     readBack        `json:"read"`
+	Faithful bool            `json:"faithful"`
 }
 
 // ---------------------------------------------------------------------------------------- routes
@@ -116,16 +129,55 @@ func (f *fake) LoggingEndpoints() ([]string, error)                 { return nil
 
 func sp(s string) *string { return &s }
 
-func apiFetcher(r resource) snippet.Fetcher {
-	f := &fake{}
+func cpsOf(s string) cps {
+	var c cps
+	for _, r := range s {
+		c = append(c, int(r))
+	}
+	return c
+}
+
+// world: what one case stands for - services with dictionaries and ACLs (a single generated dictionary / ACL gets a
+// fixed decoy sibling), or one service with backends and directors
+type world struct {
+	services []service
+	backends []resource
+	director *resource
+}
+
+func worldOf(r resource) world {
 	switch r.Kind {
+	case "multi":
+		return world{services: r.Services}
 	case "dict":
+		d := resource{Kind: "dict", Name: cpsOf("zz_decoy"), Items: []item{{Key: cpsOf("dk"), Value: cpsOf("dv")}}}
+		return world{services: []service{{ID: "s1", Dicts: []resource{r, d}}}}
+	case "acl":
+		a := resource{Kind: "acl", Name: cpsOf("zz_decoy"), Entries: []entry{{IP: cpsOf("192.0.2.1"), Subnet: 32}}}
+		return world{services: []service{{ID: "s1", Acls: []resource{r, a}}}}
+	case "backend":
+		return world{services: []service{{ID: "s1"}}, backends: []resource{r}}
+	case "director":
+		w := world{services: []service{{ID: "s1"}}, director: &r}
+		for _, m := range r.Members {
+			w.backends = append(w.backends, resource{Kind: "backend", Name: m, Address: cpsOf("h")})
+		}
+		return w
+	}
+	return world{}
+}
+
+// --- route 1: the data structures the API client fills
+func apiFetcher(w world, si int) snippet.Fetcher {
+	f := &fake{}
+	for _, r := range w.services[si].Dicts {
 		d := &snippet.Dictionary{Name: r.Name.String()}
 		for _, it := range r.Items {
 			d.Items = append(d.Items, &snippet.DictionaryItem{Key: it.Key.String(), Value: it.Value.String()})
 		}
-		f.dicts = append(f.dicts, d, &snippet.Dictionary{Name: "zz_decoy", Items: []*snippet.DictionaryItem{{Key: "dk", Value: "dv"}}})
-	case "acl":
+		f.dicts = append(f.dicts, d)
+	}
+	for _, r := range w.services[si].Acls {
 		a := &snippet.Acl{Name: r.Name.String()}
 		for _, e := range r.Entries {
 			ae := &snippet.AclEntry{Ip: e.IP.String(), Negated: e.Negated, Comment: e.Comment.String()}
@@ -135,85 +187,190 @@ func apiFetcher(r resource) snippet.Fetcher {
 			}
 			a.Entries = append(a.Entries, ae)
 		}
-		m := int64(32)
-		f.acls = append(f.acls, a, &snippet.Acl{Name: "zz_decoy", Entries: []*snippet.AclEntry{{Ip: "192.0.2.1", Subnet: &m}}})
-	case "backend":
+		f.acls = append(f.acls, a)
+	}
+	for _, r := range w.backends {
 		b := &snippet.Backend{Name: r.Name.String()}
 		if len(r.Address) > 0 {
 			b.Address = sp(r.Address.String())
 		}
 		f.backs = append(f.backs, b)
-	case "director":
+	}
+	if r := w.director; r != nil {
 		d := &snippet.Director{Name: r.Name.String(), Type: r.Type, Retries: r.Retries, Quorum: r.Quorum}
 		for _, m := range r.Members {
 			d.Backends = append(d.Backends, m.String())
-			f.backs = append(f.backs, &snippet.Backend{Name: m.String(), Address: sp("h")})
 		}
 		f.dirs = append(f.dirs, d)
 	}
 	return f
 }
 
-// terraformFetcher writes the resource as `terraform show -json` would and reads it with the real plan parser.
-func terraformFetcher(r resource) (snippet.Fetcher, bool, error) {
-	svc := map[string]any{"id": "svc1", "name": "svc"}
-	var extra []map[string]any
+// --- route 2: a Terraform plan (all services in ONE plan) read by the real plan parser
+func svcName(sv service) string { return "svc-" + sv.ID }
+
+func terraformServices(w world) ([]*terraform.FastlyService, bool, error) {
 	const prov = "registry.terraform.io/fastly/fastly"
-	switch r.Kind {
-	case "dict":
-		keys := map[string]bool{}
-		items := map[string]string{}
-		for _, it := range r.Items {
-			if keys[it.Key.String()] {
-				return nil, false, nil // a plan holds dictionary items as a map: duplicate keys cannot be expressed
+	var res []map[string]any
+	var extra []map[string]any
+	for si, sv := range w.services {
+		svc := map[string]any{"id": sv.ID, "name": svcName(sv)}
+		var dl, al []map[string]any
+		for _, r := range sv.Dicts {
+			items := map[string]string{}
+			for _, it := range r.Items {
+				if _, dup := items[it.Key.String()]; dup {
+					return nil, false, nil // a plan holds dictionary items as a map: duplicate keys cannot be expressed
+				}
+				items[it.Key.String()] = it.Value.String()
 			}
-			keys[it.Key.String()] = true
-			items[it.Key.String()] = it.Value.String()
+			dl = append(dl, map[string]any{"name": r.Name.String()})
+			extra = append(extra, map[string]any{"provider_name": prov, "type": "fastly_service_dictionary_items", "index": r.Name.String(),
+				"values": map[string]any{"service_id": sv.ID, "items": items}})
 		}
-		svc["dictionary"] = []map[string]any{{"name": r.Name.String()}, {"name": "zz_decoy"}}
-		extra = append(extra, map[string]any{"provider_name": prov, "type": "fastly_service_dictionary_items", "index": "zz_decoy",
-			"values": map[string]any{"service_id": "svc1", "items": map[string]string{"dk": "dv"}}})
-		extra = append(extra, map[string]any{"provider_name": prov, "type": "fastly_service_dictionary_items", "index": r.Name.String(),
-			"values": map[string]any{"service_id": "svc1", "items": items}})
-	case "acl":
-		var es []map[string]any
-		for _, e := range r.Entries {
-			sn := ""
-			if e.Subnet >= 0 {
-				sn = strconv.Itoa(e.Subnet)
+		for _, r := range sv.Acls {
+			es := []map[string]any{}
+			for _, e := range r.Entries {
+				sn := ""
+				if e.Subnet >= 0 {
+					sn = strconv.Itoa(e.Subnet)
+				}
+				es = append(es, map[string]any{"comment": e.Comment.String(), "ip": e.IP.String(), "negated": e.Negated, "subnet": sn})
 			}
-			es = append(es, map[string]any{"comment": e.Comment.String(), "ip": e.IP.String(), "negated": e.Negated, "subnet": sn})
+			al = append(al, map[string]any{"name": r.Name.String()})
+			extra = append(extra, map[string]any{"provider_name": prov, "type": "fastly_service_acl_entries", "index": r.Name.String(),
+				"values": map[string]any{"service_id": sv.ID, "entry": es}})
 		}
-		svc["acl"] = []map[string]any{{"name": r.Name.String()}, {"name": "zz_decoy"}}
-		extra = append(extra, map[string]any{"provider_name": prov, "type": "fastly_service_acl_entries", "index": r.Name.String(),
-			"values": map[string]any{"service_id": "svc1", "entry": es}})
-		extra = append(extra, map[string]any{"provider_name": prov, "type": "fastly_service_acl_entries", "index": "zz_decoy",
-			"values": map[string]any{"service_id": "svc1", "entry": []map[string]any{{"ip": "192.0.2.1", "subnet": "32", "negated": false, "comment": ""}}}})
-	case "backend":
-		b := map[string]any{"name": r.Name.String()}
-		if len(r.Address) > 0 {
-			b["address"] = r.Address.String()
+		svc["dictionary"], svc["acl"] = dl, al
+		if si == 0 {
+			var bs []map[string]any
+			for _, r := range w.backends {
+				b := map[string]any{"name": r.Name.String()}
+				if len(r.Address) > 0 {
+					b["address"] = r.Address.String()
+				}
+				bs = append(bs, b)
+			}
+			svc["backend"] = bs
+			if r := w.director; r != nil {
+				var names []string
+				for _, m := range r.Members {
+					names = append(names, m.String())
+				}
+				svc["director"] = []map[string]any{{"name": r.Name.String(), "type": r.Type, "retries": r.Retries, "quorum": r.Quorum, "backends": names}}
+			}
 		}
-		svc["backend"] = []map[string]any{b}
-	case "director":
-		var bs []map[string]any
-		var names []string
-		for _, m := range r.Members {
-			bs = append(bs, map[string]any{"name": m.String(), "address": "h"})
-			names = append(names, m.String())
-		}
-		svc["backend"] = bs
-		svc["director"] = []map[string]any{{"name": r.Name.String(), "type": r.Type, "retries": r.Retries, "quorum": r.Quorum, "backends": names}}
+		res = append(res, map[string]any{"provider_name": prov, "type": "fastly_service_vcl", "values": svc})
 	}
-	res := []map[string]any{{"provider_name": prov, "type": "fastly_service_vcl", "values": svc}}
-	res = append(res, extra...)
+	// the items / entries resources of the LAST service come first: the join must not depend on their order
+	for i := len(extra) - 1; i >= 0; i-- {
+		res = append(res, extra[i])
+	}
 	plan := map[string]any{"planned_values": map[string]any{"root_module": map[string]any{"resources": res}}}
 	buf, _ := json.Marshal(plan)
 	services, err := terraform.ParseStdin(bytes.NewReader(buf))
-	if err != nil {
-		return nil, true, err
+	return services, true, err
+}
+
+// --- route 3: the real API client and fetcher (snippet/remote) against a fake transport, no network.
+// The answer to the items / entries sub-request of resource number `late` is held back until every other sub-request
+// of that kind has been answered (or 300 ms have passed - a client that asks one after the other must not hang).
+type fakeAPI struct {
+	w    world
+	late int
+	mu   sync.Mutex
+	done map[string]int // kind -> answered sub-requests
+	cond *sync.Cond
+}
+
+func (f *fakeAPI) RoundTrip(req *http.Request) (*http.Response, error) {
+	p := req.URL.Path
+	sv := f.w.services[0]
+	body := "[]"
+	j := func(v any) string { b, _ := json.Marshal(v); return string(b) }
+	hold := func(kind string, idx, n int) {
+		f.mu.Lock()
+		defer f.mu.Unlock()
+		if idx+1 == f.late && n > 1 {
+			deadline := time.Now().Add(300 * time.Millisecond)
+			for f.done[kind] < n-1 && time.Now().Before(deadline) {
+				f.mu.Unlock()
+				time.Sleep(2 * time.Millisecond)
+				f.mu.Lock()
+			}
+		}
+		f.done[kind]++
 	}
-	return terraform.NewTerraformFetcher(services), true, nil
+	switch {
+	case strings.HasSuffix(p, "/version/active"):
+		body = `{"number": 3}`
+	case strings.HasSuffix(p, "/version/3/dictionary"):
+		l := []map[string]any{}
+		for i, r := range sv.Dicts {
+			l = append(l, map[string]any{"id": fmt.Sprintf("D%d", i), "name": r.Name.String(), "write_only": false})
+		}
+		body = j(l)
+	case strings.Contains(p, "/dictionary/D") && strings.HasSuffix(p, "/items"):
+		i, _ := strconv.Atoi(strings.TrimSuffix(p[strings.Index(p, "/dictionary/D")+13:], "/items"))
+		l := []map[string]any{}
+		if i < len(sv.Dicts) {
+			for _, it := range sv.Dicts[i].Items {
+				l = append(l, map[string]any{"item_key": it.Key.String(), "item_value": it.Value.String()})
+			}
+		}
+		hold("dict", i, len(sv.Dicts))
+		body = j(l)
+	case strings.HasSuffix(p, "/version/3/acl"):
+		l := []map[string]any{}
+		for i, r := range sv.Acls {
+			l = append(l, map[string]any{"id": fmt.Sprintf("A%d", i), "name": r.Name.String()})
+		}
+		body = j(l)
+	case strings.Contains(p, "/acl/A") && strings.HasSuffix(p, "/entries"):
+		i, _ := strconv.Atoi(strings.TrimSuffix(p[strings.Index(p, "/acl/A")+6:], "/entries"))
+		l := []map[string]any{}
+		if i < len(sv.Acls) {
+			for _, e := range sv.Acls[i].Entries {
+				m := map[string]any{"ip": e.IP.String(), "negated": "0", "subnet": nil, "comment": e.Comment.String()}
+				if e.Negated {
+					m["negated"] = "1"
+				}
+				if e.Subnet >= 0 {
+					m["subnet"] = e.Subnet
+				}
+				l = append(l, m)
+			}
+		}
+		hold("acl", i, len(sv.Acls))
+		body = j(l)
+	case strings.HasSuffix(p, "/version/3/backend"):
+		l := []map[string]any{}
+		for _, r := range f.w.backends {
+			b := map[string]any{"name": r.Name.String()}
+			if len(r.Address) > 0 {
+				b["address"] = r.Address.String()
+			}
+			l = append(l, b)
+		}
+		body = j(l)
+	case strings.HasSuffix(p, "/version/3/director"):
+		l := []map[string]any{}
+		if r := f.w.director; r != nil {
+			names := []string{}
+			for _, m := range r.Members {
+				names = append(names, m.String())
+			}
+			l = append(l, map[string]any{"name": r.Name.String(), "type": r.Type, "retries": r.Retries, "quorum": r.Quorum, "backends": names})
+		}
+		body = j(l)
+	}
+	return &http.Response{StatusCode: 200, Header: http.Header{"Content-Type": {"application/json"}},
+		Body: io.NopCloser(strings.NewReader(body)), Request: req}, nil
+}
+
+func remoteFetcher(w world, late int) snippet.Fetcher {
+	http.DefaultClient.Transport = &fakeAPI{w: w, late: late, done: map[string]int{}}
+	return remote.NewFastlyApiFetcher(w.services[0].ID, "key", 20*time.Second)
 }
 
 // ---------------------------------------------------------------------------------------- read back
@@ -427,43 +584,71 @@ func cmdReplay(args []string) int {
 				want.WriteString(p.Cs.String())
 			}
 		}
-		for _, route := range []string{"api", "terraform"} {
-			var f snippet.Fetcher
-			if route == "api" {
-				f = apiFetcher(b.Res)
-			} else {
-				tf, applicable, err := terraformFetcher(b.Res)
-				if !applicable {
-					continue
-				}
-				if err != nil {
-					r := hx.CaseResult{ID: fmt.Sprintf("c%05d-%s", idx, route), Input: map[string]any{"res": b.ResRaw, "route": route}}
-					r.Drift = append(r.Drift, map[string]any{"obs": "plan-not-read", "detail": firstLine(err.Error())})
-					out.Write(r)
-					continue
-				}
-				f = tf
+		w := worldOf(b.Res)
+		exp := w // what the declarations are compared with (a canary replaces it)
+		if len(b.Expect) > 0 {
+			var er resource
+			if err := json.Unmarshal(b.Expect, &er); err != nil {
+				return err
 			}
+			exp = worldOf(er)
+		}
+		for _, route := range []string{"api", "terraform", "remote"} {
 			r := hx.CaseResult{ID: fmt.Sprintf("c%05d-%s", idx, route), Validated: true,
 				Input: map[string]any{"res": b.ResRaw, "route": route},
 				Class: map[string]any{"kind": b.Res.Kind, "route": route, "chars": classes(b.Res)}}
 			r.Key = route + ":" + string(b.ResRaw)
-			o, _, err := generate(f)
-			r.Observed = o
 			mm := func(obs, field string, exp, got any) {
 				r.Mismatch = append(r.Mismatch, map[string]any{"obs": obs, "field": field, "expected": exp, "got": got})
 			}
-			switch {
-			case err != nil:
-				mm("generate", "", "VCL", firstLine(err.Error()))
-			case o.ParseErr != "":
-				mm("parse", "", "parses", o.ParseErr)
-			default:
-				compare(b.Res, o, route, mm)
+			var tfs []*terraform.FastlyService
+			if route == "terraform" {
+				s, applicable, err := terraformServices(w)
+				if !applicable {
+					continue
+				}
+				if err != nil {
+					r.Drift = append(r.Drift, map[string]any{"obs": "plan-not-read", "detail": firstLine(err.Error())})
+					out.Write(r)
+					continue
+				}
+				tfs = s
 			}
+			nsv := len(w.services)
+			if route == "remote" {
+				nsv = 1 // one client talks to one service
+			}
+			var observed []obsT
+			parseOK, genOK := true, true
+			for si := 0; si < nsv; si++ {
+				var f snippet.Fetcher
+				switch route {
+				case "api":
+					f = apiFetcher(w, si)
+				case "terraform":
+					tf := terraform.NewTerraformFetcher(tfs)
+					tf.SetName(svcName(w.services[si]))
+					f = tf
+				default:
+					f = remoteFetcher(w, b.Res.Late)
+				}
+				o, _, err := generate(f)
+				observed = append(observed, o)
+				switch {
+				case err != nil:
+					genOK = false
+					mm("generate", "", "VCL", firstLine(err.Error()))
+				case o.ParseErr != "":
+					parseOK = false
+					mm("parse", "", "parses", o.ParseErr)
+				default:
+					compareService(exp, si, o, route, mm)
+				}
+			}
+			r.Observed = observed
 			// mechanism: the text the templates are predicted to produce, and what the parser is predicted to read
-			if err == nil {
-				got := o.Text
+			if genOK {
+				got := observed[0].Text
 				if b.Res.Kind == "director" { // the model renders the director; its backends come first in the output
 					if i := strings.Index(got, "\ndirector "); i >= 0 {
 						got = got[i:]
@@ -477,10 +662,10 @@ func cmdReplay(args []string) int {
 				if route == "api" && got != want.String() {
 					r.Drift = append(r.Drift, map[string]any{"obs": "rendered-text", "expected": want.String(), "got": got})
 				}
-				if (o.ParseErr == "") != b.Read.OK {
-					r.Drift = append(r.Drift, map[string]any{"obs": "parse-prediction", "expected": b.Read.OK, "got": o.ParseErr})
+				if parseOK != b.Read.OK {
+					r.Drift = append(r.Drift, map[string]any{"obs": "parse-prediction", "expected": b.Read.OK, "got": parseOK})
 				}
-				if (len(r.Mismatch) == 0) != b.Faithful {
+				if (len(r.Mismatch) == 0) != b.Faithful && len(b.Expect) == 0 {
 					r.Drift = append(r.Drift, map[string]any{"obs": "faithful-prediction", "expected": b.Faithful, "got": len(r.Mismatch) == 0})
 				}
 			}
@@ -495,102 +680,112 @@ func cmdReplay(args []string) int {
 	return 0
 }
 
-// compare: the declarations read back against the resource they came from (requirement observables only).
-func compare(res resource, o obsT, route string, mm func(obs, field string, exp, got any)) {
-	switch res.Kind {
-	case "dict":
-		if len(o.Tables) != 2 {
-			mm("faithful", "declaration", 2, len(o.Tables))
-			return
-		}
-		if d := o.Tables[1]; d.Name != "zz_decoy" || len(d.Items) != 1 || d.Items[0] != [2]string{"dk", "dv"} {
-			mm("faithful", "other-dictionary", "zz_decoy {dk: dv}", fmt.Sprint(d))
-		}
-		t := o.Tables[0]
-		if t.Name != res.Name.String() {
-			mm("faithful", "name", res.Name.String(), t.Name)
-		}
-		exp := [][2]string{}
-		for _, it := range res.Items {
-			exp = append(exp, [2]string{it.Key.String(), it.Value.String()})
-		}
-		got := append([][2]string{}, t.Items...)
-		if route == "terraform" { // a plan holds the items as a map: order is not part of the resource
-			less := func(l [][2]string) func(i, j int) bool { return func(i, j int) bool { return l[i][0] < l[j][0] } }
-			sort.Slice(exp, less(exp))
-			sort.Slice(got, less(got))
-		}
-		if len(exp) != len(got) {
-			mm("faithful", "items", len(exp), len(got))
-			return
-		}
-		for i := range exp {
-			if exp[i][0] != got[i][0] {
-				mm("faithful", "key", exp[i][0], got[i][0])
+// compareService: the declarations generated for service si against the resources of that service
+// (requirement observables only).
+func compareService(w world, si int, o obsT, route string, mm func(obs, field string, exp, got any)) {
+	sv := w.services[si]
+	if len(o.Tables) != len(sv.Dicts) {
+		mm("faithful", "dictionaries", len(sv.Dicts), len(o.Tables))
+	} else {
+		for i, res := range sv.Dicts {
+			t := o.Tables[i]
+			tag := ""
+			if len(sv.Dicts) > 1 || len(w.services) > 1 {
+				tag = fmt.Sprintf("@%s/%s", sv.ID, res.Name.String())
 			}
-			if exp[i][1] != got[i][1] {
-				mm("faithful", "value", exp[i][1], got[i][1])
+			if t.Name != res.Name.String() {
+				mm("faithful", "name"+tag, res.Name.String(), t.Name)
 			}
-		}
-	case "acl":
-		if len(o.Acls) != 2 {
-			mm("faithful", "declaration", 2, len(o.Acls))
-			return
-		}
-		if d := o.Acls[1]; d.Name != "zz_decoy" || len(d.Entries) != 1 || d.Entries[0] != (obsEntry{IP: "192.0.2.1", Subnet: 32}) {
-			mm("faithful", "other-acl", "zz_decoy {192.0.2.1/32}", fmt.Sprint(d))
-		}
-		a := o.Acls[0]
-		if a.Name != res.Name.String() {
-			mm("faithful", "name", res.Name.String(), a.Name)
-		}
-		if len(a.Entries) != len(res.Entries) {
-			mm("faithful", "entries", len(res.Entries), len(a.Entries))
-			return
-		}
-		for i, e := range res.Entries {
-			g := a.Entries[i]
-			if g.IP != e.IP.String() {
-				mm("faithful", "ip", e.IP.String(), g.IP)
+			exp := [][2]string{}
+			for _, it := range res.Items {
+				exp = append(exp, [2]string{it.Key.String(), it.Value.String()})
 			}
-			if g.Negated != e.Negated {
-				mm("faithful", "negated", e.Negated, g.Negated)
+			got := append([][2]string{}, t.Items...)
+			if route == "terraform" { // a plan holds the items as a map: order is not part of the resource
+				less := func(l [][2]string) func(i, j int) bool { return func(i, j int) bool { return l[i][0] < l[j][0] } }
+				sort.Slice(exp, less(exp))
+				sort.Slice(got, less(got))
 			}
-			if g.Subnet != e.Subnet {
-				mm("faithful", "mask", e.Subnet, g.Subnet)
+			if len(exp) != len(got) {
+				mm("faithful", "items"+tag, len(exp), len(got))
+				continue
+			}
+			for k := range exp {
+				if exp[k][0] != got[k][0] {
+					mm("faithful", "key"+tag, exp[k][0], got[k][0])
+				}
+				if exp[k][1] != got[k][1] {
+					mm("faithful", "value"+tag, exp[k][1], got[k][1])
+				}
 			}
 		}
-	case "backend":
-		if len(o.Backends) != 1 {
-			mm("faithful", "declaration", 1, len(o.Backends))
-			return
-		}
-		b := o.Backends[0]
-		if len(res.Address) > 0 && (!b.Has || b.Host != res.Address.String()) {
-			mm("faithful", "address", res.Address.String(), b.Host)
-		}
-	case "director":
-		if len(o.Dirs) != 1 || len(o.Backends) != len(res.Members) {
-			mm("faithful", "declaration", fmt.Sprintf("1 director, %d backends", len(res.Members)), fmt.Sprintf("%d directors, %d backends", len(o.Dirs), len(o.Backends)))
-			return
-		}
-		d := o.Dirs[0]
-		want := map[int]string{1: "random", 2: "hash", 3: "client"}[res.Type]
-		if d.Type != want {
-			mm("faithful", "type", want, d.Type)
-		}
-		if d.Quorum != res.Quorum {
-			mm("faithful", "quorum", res.Quorum, d.Quorum)
-		}
-		if len(d.Refs) != len(res.Members) {
-			mm("faithful", "membership", len(res.Members), len(d.Refs))
-			return
-		}
-		for i := range res.Members {
-			// the i-th member must name the declaration generated for the i-th backend resource
-			if d.Refs[i] != o.Backends[i].Name {
-				mm("faithful", "membership", o.Backends[i].Name, d.Refs[i])
+	}
+	if len(o.Acls) != len(sv.Acls) {
+		mm("faithful", "acls", len(sv.Acls), len(o.Acls))
+	} else {
+		for i, res := range sv.Acls {
+			a := o.Acls[i]
+			tag := ""
+			if len(sv.Acls) > 1 || len(w.services) > 1 {
+				tag = fmt.Sprintf("@%s/%s", sv.ID, res.Name.String())
 			}
+			if a.Name != res.Name.String() {
+				mm("faithful", "name"+tag, res.Name.String(), a.Name)
+			}
+			if len(a.Entries) != len(res.Entries) {
+				mm("faithful", "entries"+tag, len(res.Entries), len(a.Entries))
+				continue
+			}
+			for k, e := range res.Entries {
+				g := a.Entries[k]
+				if g.IP != e.IP.String() {
+					mm("faithful", "ip"+tag, e.IP.String(), g.IP)
+				}
+				if g.Negated != e.Negated {
+					mm("faithful", "negated"+tag, e.Negated, g.Negated)
+				}
+				if g.Subnet != e.Subnet {
+					mm("faithful", "mask"+tag, e.Subnet, g.Subnet)
+				}
+			}
+		}
+	}
+	if si != 0 {
+		return
+	}
+	if len(o.Backends) != len(w.backends) {
+		mm("faithful", "backends", len(w.backends), len(o.Backends))
+		return
+	}
+	if w.director == nil {
+		for i, res := range w.backends {
+			if b := o.Backends[i]; len(res.Address) > 0 && (!b.Has || b.Host != res.Address.String()) {
+				mm("faithful", "address", res.Address.String(), b.Host)
+			}
+		}
+		return
+	}
+	res := w.director
+	if len(o.Dirs) != 1 {
+		mm("faithful", "directors", 1, len(o.Dirs))
+		return
+	}
+	d := o.Dirs[0]
+	want := map[int]string{1: "random", 2: "hash", 3: "client"}[res.Type]
+	if d.Type != want {
+		mm("faithful", "type", want, d.Type)
+	}
+	if d.Quorum != res.Quorum {
+		mm("faithful", "quorum", res.Quorum, d.Quorum)
+	}
+	if len(d.Refs) != len(res.Members) {
+		mm("faithful", "membership", len(res.Members), len(d.Refs))
+		return
+	}
+	for i := range res.Members {
+		// the i-th member must name the declaration generated for the i-th backend resource
+		if d.Refs[i] != o.Backends[i].Name {
+			mm("faithful", "membership", o.Backends[i].Name, d.Refs[i])
 		}
 	}
 }
